@@ -223,6 +223,36 @@ class Joins(Harness):
 
     def finding_key(self, v): return f"C16 joins {v.get('tag')}"
 
+    def replay(self, world, v):
+        m = v.get('model') or {}
+        def labs(tag, ktag, ltag):
+            k = m.get(ktag, 0); out = []
+            for i in range(k):
+                n = m.get(f'{ltag}{i}', self.lens[0])
+                out.append([m.get(f'{tag}{i}', 0x61)] + [0x61 + j % 26 for j in range(1, n)])
+            return out
+        la, lb = labs('a', 'ka', 'la'), labs('b', 'kb', 'lb')
+        mk = lambda ls: 'DomainName::from_labels(vec![' + ''.join('Label::try_from(&[' + ','.join(f'{b}u8' for b in l) + '][..]).unwrap(), ' for l in ls) + 'Label::new()])'
+        src = '''use super::*;
+#[test]
+fn replay() {
+    let (a, b) = match (%s, %s) { (Some(a), Some(b)) => (a, b), _ => return };
+    fn suffix(x: &DomainName, y: &DomainName) -> bool {
+        if y.labels.len() > x.labels.len() { return false; }
+        let off = x.labels.len() - y.labels.len();
+        (0..y.labels.len()).all(|i| x.labels[off + i] == y.labels[i])
+    }
+    assert!(a.is_subdomain_of(&b) == suffix(&a, &b), "VERIF-VIOLATED is_subdomain_of({:?}, {:?}) = {}", a, b, a.is_subdomain_of(&b));
+    assert!(b.is_subdomain_of(&a) == suffix(&b, &a), "VERIF-VIOLATED is_subdomain_of({:?}, {:?}) = {}", b, a, b.is_subdomain_of(&a));
+    let total = a.len - 1 + b.len;
+    match a.make_subdomain_of(&b) {
+        Some(j) => { assert!(total <= 255 && j.len == total && j.is_subdomain_of(&b), "VERIF-VIOLATED join {:?}", j); let mut want = a.labels.clone(); want.pop(); want.extend(b.labels.clone()); assert!(j.labels == want, "VERIF-VIOLATED joined labels"); }
+        None => assert!(total > 255, "VERIF-VIOLATED join rejected although it fits"),
+    }
+}
+''' % (mk(la), mk(lb))
+        return run_replay(world, 'C16', self.name, src, TYPES_RS, {'a': la, 'b': lb})
+
 
 class Relative(Harness):
     """from_relative_dotted_string(origin, s): relative text is joined to the origin, absolute text is read as is"""
